@@ -110,6 +110,9 @@ class _FakeBI:
         self._dtype, self._device = torch.float64, torch.device('cpu')
         self._last_interval = _FakeLast(pieces)
         self._round = lambda x: x  # tol = 0
+        # the other constructor fields of a real object built with tol=0 (a rewrite of __call__ may read any of them)
+        self._tol, self._entropy, self._pool_size, self._cache_size = 0.0, 0, 8, 45
+        self._levy_area_approximation = 'foster' if have_A else 'space-time'
 
 
 def aggregate(B, npieces, have_A):
